@@ -26,7 +26,7 @@ type c03Dims struct {
 	Version int      `json:"version"` // 0 ok, 1 "1.1", 2 absent
 	Dest    int      `json:"dest"`    // 0 ok, 1 empty (allowed), 2 absent (allowed), 3 wrong
 	Issuer  int      `json:"issuer"`  // 0 ok, 1 wrong, 2 absent
-	Status  int      `json:"status"`  // 0 ok, 1 Status absent, 2 StatusCode absent, 3 non-success
+	Status  int      `json:"status"`  // 0 ok, 1 Status absent, 2 StatusCode absent, 3 non-success, 4 non-success with nested Success, 5 Success with nested second-level code
 	A       [][4]int `json:"a"`       // per assertion: issuer(0 ok,1 wrong,2 absent), structure(0 ok,1 no Subject,2 no SubjectConfirmation,3 wrong Method,4 no SubjectConfirmationData), recipient(0 ok,1 wrong,2 absent), notOnOrAfter(0 ok,1 reached,2 absent,3 malformed,4 equal to the clock)
 }
 
@@ -76,6 +76,12 @@ func c03Spec(d c03Dims, cfg int) idp.ResponseSpec {
 		r.Status = "nocode"
 	case 3:
 		r.Status = "urn:oasis:names:tc:SAML:2.0:status:Requester"
+	case 4:
+		// a failure whose second-level code says Success: the top-level code decides
+		r.Status = "urn:oasis:names:tc:SAML:2.0:status:Responder>" + idp.StatusSuccess
+	case 5:
+		// Success with a second-level code: conforming
+		r.Status = idp.StatusSuccess + ">urn:oasis:names:tc:SAML:2.0:status:PartialLogout"
 	}
 	for i := 0; i < d.N; i++ {
 		a := &r.Assertions[i]
@@ -145,7 +151,7 @@ func c03Model(d c03Dims, cfg int) []c03Viol {
 		v = append(v, c03Viol{"Status absent", []string{"Status"}, []string{"ErrMissingElement"}})
 	case 2:
 		v = append(v, c03Viol{"StatusCode absent", []string{"StatusCode"}, []string{"ErrMissingElement"}})
-	case 3:
+	case 3, 4:
 		v = append(v, c03Viol{"StatusCode not Success", []string{"StatusCode"}, []string{"ErrInvalidValue"}})
 	}
 	if d.N == 0 {
@@ -320,7 +326,7 @@ func c03Gen(n int) func(c *mc.Chooser) c03Dims {
 		d.Version = c.Choose("version", 3)
 		d.Dest = c.Choose("dest", 4)
 		d.Issuer = c.Choose("issuer", 3)
-		d.Status = c.Choose("status", 4)
+		d.Status = c.Choose("status", 6)
 		for i := 0; i < n; i++ {
 			var a [4]int
 			a[0] = c.Choose(fmt.Sprintf("a%d.issuer", i), 3)
